@@ -4,6 +4,7 @@ import (
 	"errors"
 	"fmt"
 	"io"
+	"strings"
 
 	"github.com/ipld/go-ipld-prime/datamodel"
 	cidlink "github.com/ipld/go-ipld-prime/linking/cid"
@@ -17,8 +18,11 @@ type Inc struct {
 
 type Observer struct {
 	Incs []Inc
-	// SkipAbsentProbe disables lookups of keys that are not there (typed structs answer differently).
 	Full bool
+	// Typed relaxes what the data-model contract leaves to typed nodes: a lookup of something that is
+	// not there may answer (Absent, nil); kind-inappropriate lookups may fail with any error type;
+	// kind-inappropriate accessors are probed on the root node only (nested types are roots elsewhere).
+	Typed bool
 }
 
 func (o *Observer) inc(cause, format string, a ...any) {
@@ -30,6 +34,13 @@ func (o *Observer) inc(cause, format string, a ...any) {
 // Observe reads everything observable from n. Inconsistencies between access forms are listed.
 func Observe(n datamodel.Node) (Val, []Inc) {
 	o := &Observer{Full: true}
+	v := o.Read(n, "")
+	return v, o.Incs
+}
+
+// ObserveTyped is Observe with the relaxations typed nodes are entitled to.
+func ObserveTyped(n datamodel.Node) (Val, []Inc) {
+	o := &Observer{Full: true, Typed: true}
 	v := o.Read(n, "")
 	return v, o.Incs
 }
@@ -193,7 +204,7 @@ func (o *Observer) Read(n datamodel.Node, path string) Val {
 		o.inc("invalid-kind", "at %q: kind %v", path, k)
 		return Val{}
 	}
-	if o.Full {
+	if o.Full && (!o.Typed || path == "") {
 		o.crossKind(n, k, path)
 	}
 	return v
@@ -399,9 +410,12 @@ func (o *Observer) lookupAgree(path, form string, want Val, fn func() (datamodel
 func (o *Observer) lookupAbsent(path, what, form string, fn func() (datamodel.Node, error)) {
 	guard(o, form, path, func() {
 		c, err := fn()
+		if err == nil && o.Typed && c != nil && c.IsAbsent() {
+			return
+		}
 		if err == nil {
 			o.inc("absent-lookup-ok("+form+")", "at %q: %s returned %v with nil error", path, what, c)
-		} else if c != nil {
+		} else if c != nil && !(o.Typed && c.IsAbsent()) {
 			o.inc("absent-lookup-node+err("+form+")", "at %q: %s returned non-nil node with error %v", path, what, err)
 		}
 	})
@@ -417,7 +431,7 @@ func (o *Observer) crossKind(n datamodel.Node, k datamodel.Kind, path string) {
 			err := fn()
 			if err == nil {
 				o.inc("wrongkind-noerr("+m+")", "at %q: %s on a %v node returned nil error", path, m, k)
-			} else if !isWrongKind(err) {
+			} else if !isWrongKind(err) && !(o.Typed && strings.HasPrefix(m, "Lookup")) {
 				o.inc("wrongkind-othererr("+m+")", "at %q: %s on a %v node returned %T %v", path, m, k, err, err)
 			}
 		})
